@@ -142,6 +142,9 @@ func selfTest(r *Run, repo, verif string) {
 	}
 	var out []res
 	applied, detected, na := 0, 0, 0
+	var wgS sync.WaitGroup
+	var muS sync.Mutex // guards out and the counters; released while the child process runs
+	semS := make(chan struct{}, 8)
 	for _, mf := range metas {
 		b, err := os.ReadFile(mf)
 		if err != nil {
@@ -162,7 +165,13 @@ func selfTest(r *Run, repo, verif string) {
 		if err != nil {
 			continue
 		}
-		func() {
+		wgS.Add(1)
+		go func() {
+			defer wgS.Done()
+			semS <- struct{}{}
+			defer func() { <-semS }()
+			muS.Lock()
+			defer muS.Unlock()
 			defer os.RemoveAll(tmp)
 			tree := filepath.Join(tmp, "tree")
 			ev := filepath.Join(tmp, "verif")
@@ -186,7 +195,9 @@ func selfTest(r *Run, repo, verif string) {
 			applied++
 			c := exec.Command(exe, "-property", r.Property, "-tier", "quick", "-repo", tree, "-verif", ev)
 			c.Env = append(os.Environ(), "VLCHECK_NO_SELFTEST=1")
+			muS.Unlock()
 			o, _ := c.CombinedOutput()
+			muS.Lock()
 			code := c.ProcessState.ExitCode()
 			var rules []string
 			seen := map[string]bool{}
@@ -205,6 +216,8 @@ func selfTest(r *Run, repo, verif string) {
 			}
 		}()
 	}
+	wgS.Wait()
+	sort.Slice(out, func(i, j int) bool { return out[i].ID < out[j].ID })
 	// the other direction: behaviour-preserving refactorings (extract/inline helper, renamed locals, if-chain <-> switch,
 	// closures handed to shared helpers, ...) must not make this property's check report
 	benign, _ := filepath.Glob(filepath.Join(verif, "benign", "*.diff"))
